@@ -463,6 +463,13 @@ impl<H: HashAlgorithm> RangeUpdater<H> {
         } else {
             None
         };
+        #[cfg(nomt_verif)]
+        crate::verif_api::split_trace::push(crate::verif_api::split_trace::Event::Advance {
+            shard: self.verif_shard,
+            start: start_index,
+            rebuilt: ops.is_some(),
+            ops: ops.as_ref().map_or(0, |o| o.len()),
+        });
         self.attempt_advance(output, page_set, seek_result, ops, batch_size);
 
         next_index
